@@ -120,6 +120,8 @@ def decide(ob, prog, src, tier):
             return res
         nq = 0
         witness_ok = False
+        # panic paths first: they are cheap to decide and definitive
+        paths = sorted(paths, key=lambda q: 0 if q.outcome == "panic" else 1)
         for p in paths:
             props = ob["check"](p)
             for label, prop in props:
@@ -141,9 +143,13 @@ def decide(ob, prog, src, tier):
                 res["solver_s"] += time.time() - ts
                 nq += 1
                 if r == z3.unknown:
-                    res["status"] = "inconclusive"
-                    res["reason"] = f"z3 unknown on `{label}`"
-                    return res
+                    cv = cvc5_check(s.to_smt2().replace("(check-sat)", ""), 120)
+                    if cv == "unsat":
+                        r = z3.unsat
+                    else:
+                        res["status"] = "inconclusive"
+                        res["reason"] = f"z3 unknown on `{label}` (cvc5: {cv})"
+                        return res
                 if r == z3.sat and getattr(p.ctx, "lazy_defs", None):
                     # the path used abstract predicates: add their definitions before believing the counterexample
                     s.add(*p.ctx.lazy_defs)
@@ -167,6 +173,8 @@ def decide(ob, prog, src, tier):
                     if "cex_extract" in ob:
                         try:
                             res["cex_input"] = ob["cex_extract"](p, m)
+                            if isinstance(res["cex_input"], dict):
+                                res["cex_input"]["claim"] = label
                             native_replay(ob, res)
                         except Exception as e:  # noqa
                             res["cex_input"] = {"error": repr(e) + traceback.format_exc()[-800:]}
